@@ -837,6 +837,9 @@ impl<RW: QueueRW<T>, T> Stream for &FutInnerRecv<RW, T> {
                     let count = self.reader.reader.load_count(Relaxed);
                     let cell = self.reader.queue.wait_cell(count);
                     if self.wait.fut_wait(count, cell, &self.reader.queue.writers) {
+                        // A failed attempt on a shared stream may have pinned and
+                        // released a slot a sender was refused for: tell the senders
+                        self.prod_wait.notify_all();
                         return Ok(Async::NotReady);
                     }
                 }
